@@ -1,2 +1,2 @@
 import Operon.Model.MitoProto
-def main : IO Unit := Operon.Mito.main
+def main : IO Unit := Operon.Mito.mainW
